@@ -412,7 +412,15 @@ class XGen:
         if "\n" in line or "#" in line or self.k(7) != 0:
             return line
         self.lab("comment:trailing")
-        return line + self.pick(["  ", " ", "", "\t", "    "]) + self.pick(COMMENTS)
+        pads = ["  ", " ", "", "\t", "    "]
+        if getattr(self, "_kind", "") == "command" or "!" in line:
+            # xonsh's parser mis-reads a command line whose trailing comment follows a tab (`ls -l<tab># c` -> `ls -`,
+            # or a SyntaxError inside a block): not the formatter's business (the plain case is still met in real text
+            # and shows up under exempt:parser-sensitive-to-width-of-a-blank-run)
+            pads.remove("\t")
+        if "C17-F03" in self.avoid and getattr(self, "_kind", "") == "command":
+            pads.remove("")              # a `#` glued to the last word of a command is part of that word
+        return line + self.pick(pads) + self.pick(COMMENTS)
 
     HEADS = ["if x:", "if  x :", "if x == 1:", "if x==1 :", "for i in y:", "for i in range( 3 ):", "while x:", "def f():", "def f(a, b=1):",
              "def f( a,b = 1 ) :", "class A:", "class A( B ):", "try:", "with a as b:", "with open( 'f' ) as g :", "async def h():",
